@@ -14,28 +14,28 @@ TRUST = ("Trusted base: go/packages loader, go/types, golang.org/x/tools/go/ssa 
 # id -> (technique, level text, design ref, extra note)
 CLAIMED = {
     "C01": ("symbolic interpretation of the decoder's SSA along every success path (forced branches, enumerated forks, one symbolic loop element) giving field origins over the BER tree; comparison with an RFC 4511 table; branch-table extraction for the kind maps",
-            "Decides position, accessor, order and completeness of every decoded field, the class/type/tag and child-count assertions, that the decode path gives up only on conditions about the BER shape (never on the bytes of a value), the protocolOp->kind->message->operation bijection and the version gate, for all inputs at once; values are never inspected. ldap.DecompileFilter / ber.ReadPacket are trusted.",
+            "Decides position, accessor, order and completeness of every decoded field, the class/type/tag and child-count assertions, that the decode path gives up only on conditions about the BER shape (never on the bytes of a value), the protocolOp->kind->message->operation bijection and the version gate, for all inputs at once; values are never inspected. ldap.DecompileFilter / ber.ReadPacket are trusted. After a failed read the read loop never reads the connection again (a read that gave up inside ber.ReadPacket has consumed part of a request).",
             "2/C01", ""),
     "C02": ("panic-site enumeration over the decode call-graph slice + forward must-dataflow of guard facts on SSA (access-path keys, callee success summaries, functional-option contexts)",
-            "Sound for the enumerated panic classes in gldap's own decode code for every BER tree ber.ReadPacket can return, modulo the listed library facts; the connection-level recover is not accepted as a guard. Library-internal resource exhaustion is not decided.",
+            "Sound for the enumerated panic classes in gldap's own decode code for every BER tree ber.ReadPacket can return, modulo the listed library facts; the connection-level recover is not accepted as a guard. Library-internal resource exhaustion is not decided. A packet returned by the ber library together with an error is treated as nil until the error is tested; AppendChild dereferences its argument.",
             "2/C02", ""),
     "C03": ("CFG exactly-once counting, range-order and who-writes rules on (*Mux).serve; truth-table comparison of every match() predicate with a reference formula; table agreement for registration and refusal tags",
             "Decides exactly-once, first-match order, predicate semantics of all six route kinds and the shape of the built-in refusal for all route tables and requests; handlers themselves are out of scope.",
             "2/C03", ""),
     "C07": ("goroutine census with deferred-recover dominance check, accept-loop retry path search, exit/containment scans over the connection call-graph slice, ownership of the per-connection reader/writer pair",
-            "Decides that every goroutine gldap starts for handler or decode code is fenced by recover() exactly under !disablePanicRecovery and that transient accept errors loop, that the accept loop (helpers included) does no per-connection I/O, and that a connection's buffered reader/writer pair is never reset, replaced or shared outside initConn; the content of bystanders' answers is not decided.",
+            "Decides that every goroutine gldap starts for handler or decode code is fenced by recover() exactly under !disablePanicRecovery and that transient accept errors loop, that the accept loop (helpers included) does no per-connection I/O, and that a connection's buffered reader/writer pair is never reset, replaced or shared outside initConn; the content of bystanders' answers is not decided. No path of the accept loop gives a connWg place back twice (a negative WaitGroup counter panics outside every recover).",
             "2/C07", ""),
     "C04": ("symbolic interpretation of every response encoder and constructor (BER tree grammar per path, option resolution, callee inlining) compared with the RFC 4511 grammar; setter / option / NewInteger scans",
-            "Decides which value ends up in which slot of which tag for all values, option subsets and setter uses; BER length/identifier octets are the library's.",
+            "Decides which value ends up in which slot of which tag for all values, option subsets and setter uses; BER length/identifier octets are the library's. Each setter stores its argument on every path (no argument value makes it a no-op). Every Lock of the connection's writer mutex is released on every path (a writer lock left held makes every later response block).",
             "2/C04", ""),
     "C05": ("SSA must-held lock-set + path-count typestate + who-calls/who-constructs scans",
             "Sound lock-discipline argument over all schedules: every access to the shared bufio.Writer is inside one critical section of the connection's single mutex that emits exactly one whole frame and flushes it; no schedule is executed.",
             "2/C05", ""),
     "C06": ("SSA induction-variable provenance + control-dependence of synchronous dispatch sites + wait-edge scan + may-held lock sets at handler calls and handler waits",
-            "Decides, for every pipeline, that Request.ID is the read loop's 1,2,3,... counter and that no path of the read loop runs or waits for a handler except for Unbind/StartTLS; scheduler progress is not decided.",
+            "Decides, for every pipeline, that Request.ID is the read loop's 1,2,3,... counter and that no path of the read loop runs or waits for a handler except for Unbind/StartTLS; scheduler progress is not decided. The read loop itself writes to the client only for Unbind/StartTLS or when it is leaving the loop (a handler blocked in Write holds the writer lock).",
             "2/C06", ""),
     "C08": ("CFG ordering / exactly-once path rules on the per-connection teardown, who-calls scans, WaitGroup pairing",
-            "Decides on every exit path: teardown registered first, Wait -> Close -> OnClose each exactly once with the connection's own ID, nobody else closes or reports, Add/Done pairing; the run-time census of goroutines/descriptors is not decided.",
+            "Decides on every exit path: teardown registered first, Wait -> Close -> OnClose each exactly once with the connection's own ID, nobody else closes or reports, Add/Done pairing; the run-time census of goroutines/descriptors is not decided. A connection the accept loop does not hand to the connection goroutine is closed by the loop itself.",
             "2/C08", ""),
     "C09": ("SSA induction-variable and who-writes provenance",
             "Connection ID is a private strictly increasing loop counter, immutable after newConn, returned by the getter and handed unchanged to OnClose; uniqueness within one Run.",
@@ -44,28 +44,28 @@ CLAIMED = {
             "All clauses structural: unbind decided before any dispatch, answer or further read, nothing read/dispatched after it, handler exactly once iff registered, no response written by gldap.",
             "2/C10", ""),
     "C11": ("necessary-condition check: asynchronous waker on shutdownCtx located by socket-use provenance + dominance, Stop ordering, lock scan",
-            "Necessary structural conditions only: an asynchronous read+write deadline/close of every connection's socket on shutdown exists, is armed before the first read and before any blocking socket I/O of the connection goroutine, and stays armed until the handlers have ended; no untracked holder of a connection socket exists and no call outside the shutdown path / connection setup / read loop (or a paired arm-clear) can clear its deadlines; the connection goroutine has no unwakeable blocking operation; every connWg.Add is matched; Stop orders Close/cancel before Wait. The time bound itself is not decided.",
+            "Necessary structural conditions only: an asynchronous read+write deadline/close of every connection's socket on shutdown exists, is armed before the first read and before any blocking socket I/O of the connection goroutine, and stays armed until the handlers have ended; no untracked holder of a connection socket exists and no call outside the shutdown path / connection setup / read loop (or a paired arm-clear) can clear its deadlines; the connection goroutine has no unwakeable blocking operation; every connWg.Add is matched; Stop orders Close/cancel before Wait. The time bound itself is not decided. The watcher - a goroutine or a context.AfterFunc callback - is disarmed only after conn.close() has waited for the handlers.",
             "2/C11", "Timing clause not decided."),
     "C12": ("CFG ordering rules on teardown/Run/Stop exits (must-pass-through, control dependence on the listener-closed atom)",
-            "Decides the ordering/pairing quiescence depends on: Done last, every connWg.Add matched and ordered with Stop's Wait (reserved under the lock Stop holds), handlers waited for, no other goroutine handed an accepted connection, listener released on every Run exit, Stop returns nil only after cancel+Wait, idempotent. Kernel port state is not decided.",
+            "Decides the ordering/pairing quiescence depends on: Done last, every connWg.Add matched and ordered with Stop's Wait (reserved under the lock Stop holds), handlers waited for, no other goroutine handed an accepted connection, listener released on every Run exit, Stop returns nil only after cancel+Wait, idempotent. Kernel port state is not decided. Every accepted connection is handed to the accounted goroutine or closed before the iteration is left; a place is given back at most once.",
             "2/C12", ""),
     "C13": ("control-dependence of the StartTLS dispatch site, value provenance in StartTLS/initConn, lock-set, socket-use discipline scan",
-            "Decides that no LDAP read can interleave with the upgrade and that after it all I/O goes through the TLS reader/writer pair built from the handshaken connection, that no deadline armed during the upgrade outlives it, and that every request read is dispatched exactly once; crypto/tls behaviour is trusted.",
+            "Decides that no LDAP read can interleave with the upgrade and that after it all I/O goes through the TLS reader/writer pair built from the handshaken connection, that no deadline armed during the upgrade outlives it, and that every request read is dispatched exactly once; crypto/tls behaviour is trusted. A slot of a channel semaphore taken on the StartTLS path is given back on every exit.",
             "2/C13", ""),
     "C14": ("BER tree grammar of every control encoder (all paths) against RFC 4511 / RFC 2696 / draft-behera-10 / draft-vchu-00; attachment position; truth table of the Behera constructor",
-            "Decides agreement of every control's encoding with the published grammars (what an independent client parses; ber.AppendChild modelled as a copy at call time), the attachment of controls in both directions, the Behera constructor's validation, and per-field encode->decode composition through a wire-tree oracle, including that the decoder rejects no value of the field types (integer range arithmetic on its error branches). Values are never inspected.",
+            "Decides agreement of every control's encoding with the published grammars (what an independent client parses; ber.AppendChild modelled as a copy at call time), the attachment of controls in both directions, the Behera constructor's validation, and per-field encode->decode composition through a wire-tree oracle, including that the decoder rejects no value of the field types (integer range arithmetic on its error branches). Values are never inspected. For a well-formed request that carries controls no successful decoding path ends with anything but the decoded list in Controls.",
             "2/C14", ""),
     "C15": ("frozen field classification + must-held lock sets (with entry lock sets of private callees) + confinement to the connection goroutine + who-writes scans + closure-capture check",
-            "Race freedom on the state of conn, Server, Mux, ResponseWriter and Directory under the stated goroutine structure (fields not in the table are classified from their accesses: sync type / written only during construction / always under one mutex of the struct, otherwise undecided). No schedule is explored.",
+            "Race freedom on the state of conn, Server, Mux, ResponseWriter and Directory under the stated goroutine structure (fields not in the table are classified from their accesses: sync type / written only during construction / always under one mutex of the struct, otherwise undecided). No schedule is explored. A mutex-guarded slice field that is written in place never has its backing array handed out of the lock (getter results, arguments a callee keeps).",
             "2/C15", ""),
     "C16": ("panic-site enumeration (engine E2) from the exported helper/constructor entries with caller-controlled parameters; sibling layout comparison for SID; order-taint and paired-write scans",
-            "Decides panic freedom (enumerated classes) for all argument values and option subsets, deterministic attribute order, paired string/byte values and the Behera constructor's validation table; the value-level inverse clauses are not decided.",
+            "Decides panic freedom (enumerated classes) for all argument values and option subsets, deterministic attribute order, paired string/byte values and the Behera constructor's validation table; the value-level inverse clauses are not decided. In ConvertString / SIDBytes / SIDBytesToString an error of a module helper reaches the caller on every path from its failure edge.",
             "2/C16", ""),
     "C17": ("control-dependence of flag stores on net.Listen's error + who-writes + lock-set",
             "Decides the only-if-bound direction for every address and schedule, that Run does not give up between Ready and the first Accept, and that nothing the accept loop does between two Accepts waits for a single client (no server lock taken by connections, no handshake / read / write on the accepted connection), and that a setup deadline taken from a configured timeout is armed only when that timeout is configured; kernel accept behaviour is not decided.",
             "2/C17", ""),
     "C18": ("listener provenance through functional-option summaries, socket-use discipline, constant/provenance checks on the test directory's tls.Config",
-            "Decides that on a TLS port the only byte source of a handler is a tls.Conn created from exactly the configured policy (stream provenance of every initConn call), that the test directory's mTLS policy requires and verifies client certificates and that its CA issues leaf certificates only; crypto/tls is trusted.",
+            "Decides that on a TLS port the only byte source of a handler is a tls.Conn created from exactly the configured policy (stream provenance of every initConn call), that the test directory's mTLS policy requires and verifies client certificates and that its CA issues leaf certificates only; crypto/tls is trusted. The accept loop performs no handshake or read on an accepted connection, so a peer that stalls there holds up nobody else.",
             "2/C18", ""),
     "C19": ("decision-table walk (engine E4) of the bind handler's CFG over canonical branch atoms, compared row by row with the reference formula",
             "Decides the if-and-only-if of the statement for every user set, DN and password (one symbolic user = existential over the list), independent of transport; and (import of the C01 rules for SimpleBindMessage) that the handler decides on the name and password as sent and that every bind reaches it.",
